@@ -185,6 +185,17 @@ Definition classify_read (st : state) (sp : sstate) (s : Z) (k : kind) : Z :=
       first_class (scan_class st dc (tm_epoch st) SYSTEM (SelLabel l)) (range nb)
   end.
 
+(** the edges the specification detaches from node [id] vs the edges [delete_node_edges] really deletes
+    (raw adjacency, each through [delete_edge] at the store's own epoch) *)
+Definition detach_class (st : state) (d : db) (id eb : Z) : Z :=
+  first_class (fun x =>
+      let adj := existsb (fun p => snd p =? x) (edges_from st id Out ++ edges_from st id Inc) in
+      let ci := match d_edge d x with Some (a, b, _) => (a =? id) || (b =? id) | None => false end in
+      let cm := adj && MEs st x in
+      if Bool.eqb cm ci then 0
+      else if cm then 1
+      else if negb adj then 6 else 4) (range eb).
+
 (** the read inside a write statement: does the model select / affect the same entities as the
     specification?  0 = yes *)
 Definition mut_class (st : state) (sp : sstate) (o : op) : Z :=
@@ -198,15 +209,7 @@ Definition mut_class (st : state) (sp : sstate) (o : op) : Z :=
       let '(e, t) := ctx st s in let d := view_of sp s in
       let c := scan_class st d e t m id in
       if negb (c =? 0) then c
-      else if detach && sp_match d m id then
-        (* the edges the specification detaches vs the edges [delete_node_edges] really deletes *)
-        first_class (fun x =>
-            let adj := existsb (fun p => snd p =? x) (edges_from st id Out ++ edges_from st id Inc) in
-            let ci := match d_edge d x with Some (a, b, _) => (a =? id) || (b =? id) | None => false end in
-            let cm := adj && MEs st x in
-            if Bool.eqb cm ci then 0
-            else if cm then 1
-            else if negb adj then 6 else 4) (range eb)
+      else if detach && sp_match d m id then detach_class st d id eb
       else 0
   | SetProp s m id _ _ | RemoveProp s m id _ =>
       let '(e, t) := ctx st s in scan_class st (view_of sp s) e t m id
@@ -224,7 +227,9 @@ Definition mut_class (st : state) (sp : sstate) (o : op) : Z :=
   | DeleteEdge x =>
       let cm := MEs st x in let ci := in_dbe dc x in let sys := MEv st (tm_epoch st) SYSTEM x in
       if Bool.eqb cm ci then 0 else if cm then (if sys then 1 else 4) else (if sys then 4 else 3)
-  | DbDeleteNode n => db_node_class n
+  | DbDeleteNode n =>
+      let c := db_node_class n in
+      if negb (c =? 0) then c else if in_db dc n then detach_class st dc n eb else 0
   | DbAddLabel n l | DbRemoveLabel n l =>
       let c := db_node_class n in
       if negb (c =? 0) then c
